@@ -29,6 +29,12 @@ structure AInv (v : Text) (e : List Text) : Prop where
   df : DotFree e
   shape : ∃ k, segs v = List.replicate k segDot ++ e
 
+/-- a dot-free list is not the lone `.` that `..` takes for the empty path -/
+theorem ite_lone_dot {e : List Text} (df : DotFree e) :
+    (if (e == [segDot]) = true then ([] : List Text) else e) = e := by
+  have : e ≠ [segDot] := fun h => df.1 (h ▸ List.mem_cons_self)
+  simp [this]
+
 theorem realises_cases {q : Text} {L : List Text} (h : realises q L = true) :
     segs q = L ∨ segs q = segDot :: L := by
   simp only [realises, Bool.or_eq_true, decide_eq_true_eq, Bool.and_eq_true] at h
@@ -265,6 +271,14 @@ theorem ainv_step (anch fa : Bool) (v s : Text) (e : List Text) (inv : AInv v e)
     · subst h2
       simp only [segDotDot, beq_self_eq_true, if_true]
       refine ⟨?_, trivial⟩
+      have hv : (v == [cDot]) = false := by
+        have : v ≠ [cDot] := by intro hv; have := inv.abs; rw [hv] at this; simp [isAbs, cDot, cSlash] at this
+        simpa using this
+      simp only [hv, Bool.false_eq_true, if_false]
+      have he : (e == [segDot]) = false := by
+        have : e ≠ [segDot] := fun h => inv.df.1 (h ▸ List.mem_cons_self)
+        simpa using this
+      simp only [he, Bool.false_eq_true, if_false]
       have := ainv_pop anch fa v e inv
       rw [← listPop_dotFree inv.df] at this
       exact this
